@@ -202,44 +202,48 @@ def run(R):
     with R.guard('C16.R4'):
         mk = web.body('call::make_trailers_frame')
         R.saw(mk)
-        puts = [(bb, t) for bb, t in mk.calls(pat='BufMut::put_')]
-        R.eq([t['name'] for bb, t in puts], ['put_u8', 'put_u32', 'put_slice'], 'C16.R4', 'frame-writes', site(mk), 'writes of the trailers frame in order')
-        if len(puts) == 3:
-            R.check(all(mk.dominates(puts[i][0], puts[i + 1][0]) for i in range(2)), 'C16.R4', 'frame-order', site(mk), 'flag, then length, then payload')
-            fl = mk.origin(puts[0][1]['args'][1])
-            R.check(const_val(fl) == W['trailers_flag'], 'C16.R4', 'flag=0x80', site(mk, puts[0][0]), 'flag = %s' % show(fl))
-            ln = mk.origin(puts[1][1]['args'][1])
-            R.check(ln[0] == 'cast' and is_call(strip_refs(ln[2]), name='len') and mentions_call(ln, name='encode_trailers'), 'C16.R4', 'length=payload-length', site(mk, puts[1][0]), 'length = %s' % show(ln)[:100])
-            pl = mk.origin(puts[2][1]['args'][1])
-            R.check(mentions_call(pl, name='encode_trailers'), 'C16.R4', 'payload=encoded-trailers', site(mk, puts[2][0]), 'payload = %s' % show(pl)[:100])
+        lay = prefix_layout(mk)
+        R.eq([(d['off'], d['width']) for d in lay[:2]] + [(lay[2]['off'],) if len(lay) > 2 else None], [(0, 1), (1, 4), (5,)], 'C16.R4', 'frame-writes', site(mk), 'writes of the trailers frame as (offset, width): flag, big-endian length, payload at 5')
+        if len(lay) == 3:
+            R.check(lay[1]['endian'] == 'be', 'C16.R4', 'frame-order', site(mk), 'flag, then big-endian length, then payload')
+            fl = lay[0]['value']
+            R.check(const_val(fl) == W['trailers_flag'], 'C16.R4', 'flag=0x80', site(mk, lay[0]['bb']), 'flag = %s' % show(fl))
+            ln = payload_len_source(lay[1]['value'])
+            R.check(is_call(strip_refs(ln), name='len') and mentions_call(ln, name='encode_trailers'), 'C16.R4', 'length=payload-length', site(mk, lay[1]['bb']), 'length = %s' % show(ln)[:100])
+            pl = lay[2]['value']
+            R.check(mentions_call(pl, name='encode_trailers'), 'C16.R4', 'payload=encoded-trailers', site(mk, lay[2]['bb']), 'payload = %s' % show(pl)[:100])
         en = web.body('call::encode_trailers')
         R.saw(en)
-        it = en.calls(name='iter')
-        fo = en.calls(name='fold')
-        R.check(len(it) == 1 and 'HeaderMap' in (it[0][1].get('fn') or '') and len(fo) == 1 and mentions_call(en.origin(fo[0][1]['args'][0]), name='iter'), 'C16.R4', 'every-entry', site(en),
-                'folds over HeaderMap::iter() (every value of every name): iter sites %d (%s)' % (len(it), it[0][1].get('fn') if it else None))
+        # every (name, value) entry of the map: HeaderMap::iter() / (&HeaderMap).into_iter(), consumed by fold / for_each / a for loop
+        it = [(bb, t) for bb, t in en.calls(name='iter') if 'HeaderMap' in (t.get('fn') or '')] + [(bb, t) for bb, t in en.calls(name='into_iter') if re.search(r'&(\'\w+ )?http::HeaderMap', str(t.get('self_ty')) + str(t.get('resolved')))]
+        bad_it = [t.get('name') for bb, t in en.calls() if t.get('name') in ('keys', 'values', 'get', 'index', 'drain') and 'HeaderMap' in (t.get('fn') or '') + str(t.get('self_ty'))]
+        R.check(len(it) == 1 and not bad_it, 'C16.R4', 'every-entry', site(en), 'iterates HeaderMap::iter() (every value of every name): %d site(s); other map accessors: %r' % (len(it), bad_it))
         cl = [c for c in web.children(en) if c.kind == 'closure']
-        if len(cl) == 1:
-            c = cl[0]
+        wb = cl[0] if len(cl) == 1 and not [1 for bb, t in en.calls() if t.get('name') in ('put_slice', 'extend_from_slice', 'push', 'put_u8')] else (en if not cl else None)
+        if wb is not None:
+            c = wb
             R.saw(c)
             seq = []
             for bb in sorted(c.live_blocks(), key=lambda x: len(c.dominators().get(x, ()))):
                 t = c.term(bb)
-                if t['k'] == 'call' and t.get('name') in ('put_slice', 'push', 'put_u8', 'extend_from_slice'):
+                if t['k'] == 'call' and t.get('name') in ('put_slice', 'push', 'put_u8', 'extend_from_slice', 'put'):
                     a = c.origin(t['args'][1])
-                    s = show(a)
-                    cv = const_val(a)
+                    cv = const_val(strip_refs(a))
+                    srcs = [str(x[4].get('fn')) + str(x[4].get('self_ty')) + str(x[4].get('resolved')) for x in find_terms(a, lambda x: is_call(x))]
                     if cv == ord(':') or cv == b':':
                         seq.append(':')
-                    elif cv in (b'\r\n',) or (isinstance(cv, bytes) and cv == b'\r\n'):
+                    elif isinstance(cv, bytes) and cv == b'\r\n':
                         seq.append('CRLF')
-                    elif 'as_ref' in s and ('.0' in s or 'key' in s or 'arg' in s):
+                    elif any('HeaderName' in x for x in srcs):
                         seq.append('name')
-                    elif 'as_bytes' in s:
+                    elif any('HeaderValue' in x for x in srcs):
                         seq.append('value')
                     else:
-                        seq.append('?' + s[:30])
+                        seq.append('?' + show(a)[:30])
             R.eq(seq, ['name', ':', 'value', 'CRLF'], 'C16.R4', 'entry-grammar', site(c), 'bytes written per entry')
+            if c is en:
+                wr = [bb for bb, t in en.calls() if t.get('name') in ('put_slice', 'extend_from_slice')]
+                R.check(bool(wr) and all(en.succs(x) and x in en.reachable(en.succs(x)[0]) for x in wr), 'C16.R4', 'entry-grammar:in-loop', site(en), 'the per-entry writes are inside the loop over the entries')
         else:
             R.bad('C16.R4', 'entry-grammar', site(en), 'encode_trailers has %d closures' % len(cl), kind='UNRECOGNISED')
         pe = web.body('call::GrpcWebCall::<B>::poll_encode')
@@ -249,7 +253,8 @@ def run(R):
         encs = pe.calls(pat='base64::Engine::encode')
         for bb, t in encs:
             g = pe.edge_guards(bb)
-            okg = any(is_call(strip_refs(tm), name='eq') and term_contains(tm, lambda x: x and x[0] == 'agg' and x[1].get('variant') == 'Base64') and (vals == ['else'] or 0 not in vals) for s, vals, tm in g)
+            okg = any(is_call(strip_refs(tm), name='eq') and term_contains(tm, lambda x: x and x[0] == 'agg' and x[1].get('variant') == 'Base64') and (vals == ['else'] or 0 not in vals) for s, vals, tm in g) \
+                or any(tm[0] == 'discr' and field_names(tm[1])[-1:] == ['encoding'] and tm[2] and len(vals) == 1 and dict((a_, b_) for a_, b_ in tm[2]).get(vals[0]) == 'Base64' for s, vals, tm in g)
             R.check(okg, 'C16.R4', 'base64-iff-asked', site(pe, bb), 'base64 encoding only when encoding == Base64')
         R.floor('C16.R4', 'base64 encode sites in poll_encode', len(encs), 2)
         # nothing after the inner body ends; trailers frames are data frames
@@ -268,20 +273,36 @@ def run(R):
     # ---------------------------------------------------------------- R5 request decode
     R.describe('C16.R5', 'base64 request decoding: decode_chunk decodes the largest prefix that is a multiple of 4 and keeps the rest; at the end of the inner body leftover bytes => error, else stored trailers / end')
     with R.guard('C16.R5'):
-        md = web.body('call::GrpcWebCall::<B>::max_decodable')
-        R.saw(md)
-        rt = mirlib.returned_terms(md)
-        s = show(rt[0][1]) if rt else ''
-        okm = len(rt) == 1 and 'MulWithOverflow' in s and 'Div(' in s and s.count('const(4)') == 2 and 'len(' in s
-        R.check(okm, 'C16.R5', 'max_decodable=(len/4)*4', site(md), 'max_decodable = %s' % s[:120])
+        def is_floor4(t_, depth=0):
+            """(len/4)*4  |  len - len%4  |  a call to a method returning one of these"""
+            t_ = strip_refs(t_)
+            sh = show(t_)
+            if t_[0] == 'field' and t_[1] and t_[1][0] == 'bin':   # (x op y).0 of a checked op
+                t_ = t_[1]
+            if t_[0] == 'bin' and t_[1] in ('MulWithOverflow', 'Mul') and const_val(t_[3]) == 4:
+                d_ = strip_refs(t_[2])
+                return d_[0] == 'bin' and d_[1] == 'Div' and const_val(d_[3]) == 4 and term_contains(d_[2], lambda x: is_call(x, name='len'))
+            if t_[0] == 'bin' and t_[1] in ('SubWithOverflow', 'Sub'):
+                r_ = strip_refs(t_[3])
+                return term_contains(t_[2], lambda x: is_call(x, name='len')) and r_[0] == 'bin' and r_[1] == 'Rem' and const_val(r_[3]) == 4 and term_contains(r_[2], lambda x: is_call(x, name='len'))
+            if is_call(t_) and depth < 2 and (t_[1] or '').startswith('tonic_web::'):
+                cb_ = [x for x in web.bodies if x.kind == 'fn' and x.path == t_[1]]
+                if cb_:
+                    R.saw(cb_[0])
+                    rt_ = mirlib.returned_terms(cb_[0])
+                    return len(rt_) == 1 and is_floor4(rt_[0][1], depth + 1)
+            return False
         dc = web.body('call::GrpcWebCall::<B>::decode_chunk')
         R.saw(dc)
         sp = dc.calls(name='split_to')
-        R.check(len(sp) == 1 and is_call(strip_refs(dc.origin(sp[0][1]['args'][1])), name='max_decodable'), 'C16.R5', 'split-at-multiple-of-4', site(dc), 'buf.split_to(max_decodable())')
+        okm = len(sp) == 1 and is_floor4(dc.origin(sp[0][1]['args'][1]))
+        R.check(okm, 'C16.R5', 'max_decodable=(len/4)*4', site(dc), 'the split index is the largest multiple of 4 not above the buffered length: %s' % (show(dc.origin(sp[0][1]['args'][1]))[:100] if sp else None))
+        R.check(okm, 'C16.R5', 'split-at-multiple-of-4', site(dc), 'buf.split_to(that index)')
         de = dc.calls(pat='base64::Engine::decode')
         R.check(len(de) == 1 and mentions_call(dc.origin(de[0][1]['args'][1]), name='split_to') and (constdef(dc.origin(de[0][1]['args'][0])) or '').endswith('base64::STANDARD'), 'C16.R5', 'decode-that-prefix', site(dc), 'STANDARD.decode(buf.split_to(index))')
         me = dc.calls(name='map_err')
-        R.check(len(me) == 1, 'C16.R5', 'decode-error-is-value', site(dc), 'base64 errors are mapped to a Status (map_err sites: %d)' % len(me))
+        errv = [bb_ for bb_, i_, p_, a_, o_ in returned_aggs(dc, 'result::Result', 'Err') if is_call(strip_refs(dc.origin(o_[0])), name='internal_error') and any(tm[0] == 'discr' and term_contains(tm, lambda x: is_call(x, pat='base64::Engine::decode')) and vals == [1] for s_, vals, tm in dc.edge_guards(bb_))]
+        R.check(len(me) == 1 or len(errv) == 1, 'C16.R5', 'decode-error-is-value', site(dc), 'base64 errors are mapped to a Status (map_err sites: %d, matched Err arms: %d)' % (len(me), len(errv)))
         # "not enough to decode yet" (Ok(None)) only below one base64 quantum (4 characters): a larger threshold holds back the last
         # quantum of a body forever
         nones = [bb for bb, i_, p_, a_, ops_ in returned_aggs(dc, 'result::Result', 'Ok') if strip_refs(dc.origin(ops_[0]))[0] == 'agg' and strip_refs(dc.origin(ops_[0]))[1].get('variant') == 'None']
@@ -298,13 +319,17 @@ def run(R):
         pdx = web.body('call::GrpcWebCall::<B>::poll_decode')
         R.saw(pdx)
         # at inner end: has_remaining(buf) true -> Err
-        hr = [(bb, t) for bb, t in pdx.calls(name='has_remaining') if 'buf' in show(pdx.origin(t['args'][0]))]
-        R.check(len(hr) == 1, 'C16.R5', 'leftover-test', site(pdx), 'buf.has_remaining() sites at end of body: %d' % len(hr))
+        hr = [(bb, t) for bb, t in pdx.calls() if t.get('name') in ('has_remaining', 'is_empty') and mentions_field(pdx.origin(t['args'][0]), 'buf')]
+        R.check(len(hr) == 1, 'C16.R5', 'leftover-test', site(pdx), 'buf.has_remaining() / buf.is_empty() sites at end of body: %d' % len(hr))
         if hr:
             sw = mirlib.follow_to_switch(pdx, hr[0][1]['t'])
             edges = pdx.switch_edges(sw)
             true_t = [t for t, vals in edges.items() if vals == ['else'] or (0 not in vals and 'else' not in vals)]
             false_t = [t for t, vals in edges.items() if vals == [0]]
+            neg_ = pdx.origin(pdx.term(sw)['on'])
+            flip = (hr[0][1]['name'] == 'is_empty') != (neg_[0] == 'un' and neg_[1] == 'Not')
+            if flip:
+                true_t, false_t = false_t, true_t   # "leftover" edge first
             errs = [bb for bb in writers_of(pdx, 0) if any(w[0] == 'variant' and w[2] == 'Ready' and term_contains(w[3][0], lambda x: x and x[0] == 'agg' and x[1].get('variant') == 'Err') for w in block_writes(pdx, bb, 0))]
             ok_t = any(pdx.dominates(true_t[0], e) for e in errs) if true_t else False
             R.check(ok_t, 'C16.R5', 'leftover->error', site(pdx, sw), 'leftover bytes at the end of a base64 body produce an error')
